@@ -372,6 +372,53 @@ def impl_parse(text):
     return ("ok", ",".join(out) if out else "_")
 
 
+LVL_SEQ = "\x1b[777m"
+
+
+def enc_chars(chars):
+    """[(char, (SGR sequence, …))] as the driver's `tree` op prints it"""
+    if not chars:
+        return "ok _"
+    return "ok " + ",".join("%d/%s" % (ord(c), ";".join(enc(x) for x in st)) for c, st in chars)
+
+
+def impl_tree(text):
+    """the implementation's reading of markup: every visible character of colorize(feed+done) with the SGR
+    sequences in force (independent interpreter); `err bad` = feed raised, `err unclosed` = strict done raised"""
+    from loguru._colorizer import AnsiParser
+    p = AnsiParser()
+    try:
+        p.feed(text)
+    except ValueError:
+        return "err bad"
+    try:
+        toks = p.done()
+    except ValueError:
+        return "err unclosed"
+    colored = AnsiParser.colorize(toks, LVL_SEQ)
+    return enc_chars([(c, tuple("\x1b[%sm" % x for x in st)) for c, st in sgr_chars(colored)])
+
+
+def oracle_tree(text):
+    """the harness's own recursive-descent reading (DOC table typed from the docstring)"""
+    try:
+        nodes, _ = read_nodes(lex(text), 0, None)
+    except MarkupError:
+        return "err"
+    exp = []
+    flatten(nodes, (), lambda nd, stack: exp.extend((ch, codes_of(stack, ["777"])) for ch in nd[1]))
+    return enc_chars([(c, tuple("\x1b[%sm" % x for x in st)) for c, st in exp])
+
+
+def sgrstr_expect(s):
+    """the harness's SGR interpreter (the oracle's instrument) in the driver's syntax"""
+    return enc_chars([(c, tuple("\x1b[%sm" % x for x in st)) for c, st in sgr_chars(s)])
+
+
+def tree_line(text):
+    return "tree %s %s" % (enc(LVL_SEQ), enc(text))
+
+
 def impl_scan(text):
     from loguru._colorizer import AnsiParser
     pos, segs = 0, []
@@ -535,6 +582,223 @@ def run_scenario(sc):
 
 
 # ------------------------------------------------------------------ scenario generator
+# ------------------------------------------------------------------ several handlers, one level table; copies
+_MULTI_OUT = []
+NONE_KEY = "\x00"          # the model's name for the key None of levels_ansi_codes (numeric levels)
+
+
+class KeySink:
+    """picklable sink: writes (handler key, text) to a process-wide list"""
+
+    def __init__(self, key):
+        self.key = key
+
+    def write(self, m):
+        _MULTI_OUT.append((self.key, str(m)))
+
+
+class DynFmt:
+    """picklable callable format"""
+
+    def __init__(self, fmt):
+        self.fmt = fmt
+
+    def __call__(self, record):
+        return self.fmt
+
+
+MULTI_FORMATS = ["<level>L</level>", "<red>a<level>b</level>c</red>", "x", "<lvl>p</lvl><b>q</b>", "<b><lvl>z</lvl></b>y",
+                 "\\<level>k<lvl>v</>", "<fg 12>n</><level>e</level>", "<lvl><lvl>d</lvl>f</lvl>"]
+MULTI_NEW = ["NEW1", "NEW2", "NEW3"]
+
+
+def gen_multi(rng):
+    """a history of add / remove / level(new or re-colour) / log, optionally copied (deepcopy or pickle) in the
+    middle: afterwards operations go to the copy, and the original is logged again at the end"""
+    ops, ids, nid, levels, copied, at_copy = [], [], 0, list(DEFAULT_LEVEL_COLORS), False, []
+    n = rng.range(4, 11)
+    for i in range(n):
+        k = rng.below(100)
+        if k < 30 or not ids:
+            ops.append(["add", nid, rng.choice(MULTI_FORMATS), rng.chance(75), rng.chance(35)])
+            ids.append(nid)
+            nid += 1
+        elif k < 38 and len(ids) > 1:
+            ops.append(["remove", ids.pop(rng.below(len(ids)))])
+        elif k < 60:
+            fresh = [x for x in MULTI_NEW if x not in levels]
+            if fresh and rng.chance(50):
+                name = fresh[0]
+                levels.append(name)
+                ops.append(["newlevel", name, rng.choice(LEVEL_COLORS + [None, None])])
+            else:
+                ops.append(["recolor", rng.choice(levels), rng.choice(LEVEL_COLORS)])
+        elif k < 70 and not copied and i >= 2:
+            copied = True
+            at_copy = list(levels)
+            ops.append(["copy", rng.choice(["deepcopy", "pickle", "pickle", "copy-core"])])
+        else:
+            ops.append(["log", rng.choice(levels + [33])])
+    for name in [rng.choice(levels), rng.choice(levels)]:
+        ops.append(["log", name])
+        if copied:
+            ops.append(["logorig", name if name in at_copy else rng.choice(at_copy)])
+    return ops
+
+
+def run_multi(ops):
+    """execute on real loggers; returns per log op [(handler id, text)] (or ('err', kind))"""
+    import copy as _copy
+    import pickle as _pickle
+    speedup()
+    lg = new_logger()
+    orig = None
+    hid = {}            # scenario id -> loguru handler id
+    results = []
+    for op in ops:
+        try:
+            if op[0] == "add":
+                fmt = op[2] + "\n"
+                hid[op[1]] = lg.add(KeySink(op[1]), format=(DynFmt(fmt) if op[4] else op[2]), colorize=op[3], level=0,
+                                    catch=False)
+            elif op[0] == "remove":
+                lg.remove(hid[op[1]])
+            elif op[0] == "newlevel":
+                if op[2] is None:
+                    lg.level(op[1], no=27)
+                else:
+                    lg.level(op[1], no=27, color=op[2])
+            elif op[0] == "recolor":
+                lg.level(op[1], color=op[2])
+            elif op[0] == "copy":
+                orig = lg
+                if op[1] == "deepcopy":
+                    lg = _copy.deepcopy(lg)
+                elif op[1] == "pickle":
+                    lg = _pickle.loads(_pickle.dumps(lg))
+                else:                                   # a new Logger around a pickled copy of the core
+                    from loguru._logger import Logger
+                    lg = Logger(core=_pickle.loads(_pickle.dumps(lg._core)), exception=None, depth=0, record=False,
+                                lazy=False, colors=False, raw=False, capture=True, patchers=[], extra={})
+            elif op[0] in ("log", "logorig"):
+                del _MULTI_OUT[:]
+                (orig if op[0] == "logorig" else lg).log(op[1], "m")
+                results.append(("ok", list(_MULTI_OUT)))
+        except Exception as e:  # noqa
+            results.append(("err", core.err_kind(e), op[0]))
+            if op[0] not in ("log", "logorig"):
+                break
+    for x in (lg, orig):
+        if x is not None:
+            try:
+                x.remove()
+            except Exception:  # noqa
+                pass
+    return results
+
+
+def judge_multi(ctx, ops, results, origin):
+    """direct oracle: every handler present prints the visible text of its format, styled by the enclosing tags,
+    `<level>` = the CURRENT colour of the record's level in the logger that was called (original and copy keep
+    separate level tables after the copy); a non-colourising handler prints the plain text"""
+    colors = dict(DEFAULT_LEVEL_COLORS)
+    colors_orig = None
+    handlers = {}
+    handlers_orig = None
+    ri = 0
+    rep = {"stream": "multi", "ops": ops, "origin": origin}
+    nbad = 0
+    for op in ops:
+        if op[0] == "add":
+            handlers[op[1]] = (op[2], op[3], op[4])
+        elif op[0] == "remove":
+            handlers.pop(op[1], None)
+        elif op[0] == "newlevel":
+            colors[op[1]] = op[2] if op[2] is not None else ""
+        elif op[0] == "recolor":
+            colors[op[1]] = op[2]
+        elif op[0] == "copy":
+            colors_orig, handlers_orig = dict(colors), dict(handlers)
+        elif op[0] in ("log", "logorig"):
+            if ri >= len(results):
+                break
+            res = results[ri]
+            ri += 1
+            cols, hs = (colors_orig, handlers_orig) if op[0] == "logorig" else (colors, handlers)
+            what = None
+            if res[0] != "ok":
+                what = "logging at level %r failed with %s although every handler and level is well-formed" % (op[1], res[1])
+            else:
+                got = dict(res[1])
+                if sorted(got) != sorted(hs) or len(res[1]) != len(hs):
+                    what = "handlers that printed: %r, handlers present: %r" % (sorted(k for k, _ in res[1]), sorted(hs))
+                else:
+                    lc = level_codes_of(cols[op[1]]) if isinstance(op[1], str) else []
+                    for k, (fmt, colorize, dynamic) in sorted(hs.items()):
+                        exp = expected_chars(fmt, {}, None, lc, False)
+                        text = "".join(c for c, _ in exp)
+                        out = got[k]
+                        if not colorize:
+                            if out != text:
+                                what = "non-colourising handler %d printed %r, expected %r" % (k, out, text)
+                        elif ANSI_RE.sub("", out) != text:
+                            what = "colourising handler %d: visible text %r, expected %r" % (k, ANSI_RE.sub("", out), text)
+                        elif sgr_chars(out) != exp:
+                            bad = next(i for i, (a, b) in enumerate(zip(sgr_chars(out), exp)) if a != b)
+                            what = ("handler %d (%s format %r) at level %r whose current colour is %r%s: character %d (%r) "
+                                    "carries SGR %r, its enclosing tags give %r; output %r"
+                                    % (k, "callable" if dynamic else "static", fmt, op[1], cols.get(op[1], ""),
+                                       " (original logger after it was copied)" if op[0] == "logorig" else "",
+                                       bad, exp[bad][0], sgr_chars(out)[bad][1], exp[bad][1], out))
+                        if what:
+                            break
+            if what:
+                nbad += 1
+                ctx.violation("handlers sharing one level table: " + what + "; history %r" % (ops,), rep)
+                break
+    if ri < len(results) and results[ri][0] == "err" and not nbad:
+        nbad += 1
+        ctx.violation("handlers sharing one level table: operation %r failed with %s on a well-formed history %r"
+                      % (results[ri][2], results[ri][1], ops), rep)
+    return nbad
+
+
+def multi_line(ops, results):
+    """the driver line for the model and the implementation's answer in the same syntax (None if some op failed)"""
+    init = ",".join("%s;%s" % (enc(k), enc(v)) for k, v in list(DEFAULT_LEVEL_COLORS.items()) + [(NONE_KEY, "")])
+    parts, outs, ri = [], [], 0
+    hs, hs_orig = [], None
+    for op in ops:
+        if op[0] == "add":
+            parts.append("A;%d;%d;%d;%s" % (op[1], 1 if op[3] else 0, 1 if op[4] else 0, enc(op[2] + "\n")))
+            hs.append(op[1])
+        elif op[0] == "remove":
+            parts.append("R;%d" % op[1])
+            hs.remove(op[1])
+        elif op[0] == "newlevel":
+            parts.append("L;%s;%s" % (enc(op[1]), enc(op[2] or "")))
+        elif op[0] == "recolor":
+            parts.append("L;%s;%s" % (enc(op[1]), enc(op[2])))
+        elif op[0] == "copy":
+            parts.append("C")
+            hs_orig = list(hs)
+        else:
+            name = op[1] if isinstance(op[1], str) else NONE_KEY
+            parts.append(("G;" if op[0] == "log" else "O;") + enc(name))
+            if ri >= len(results):
+                return None
+            res = results[ri]
+            ri += 1
+            order = hs_orig if op[0] == "logorig" else hs
+            if res[0] != "ok":
+                return None
+            got = dict(res[1])
+            if sorted(got) != sorted(order):
+                return None
+            outs.append("|".join("ok:" + enc(got[k]) for k in order) if order else "_")
+    return "multi %s %s" % (init, ",".join(parts)), (",".join(outs) if outs else "_")
+
+
 FIELDS = ["{level}", "{level.name}", "{extra[k]}", "{extra[k]!r}", "{extra[k]:>6}", "{level.no:04d}", "{extra[m]}",
           "{{", "}}", "{level.name:^9}", "{extra[k]:{extra[w]}}"]
 VALUES = ["v", "<red>", "</>", "\\<b>", "a<b>c</b>", "{", "}", "{message}", "<level>x</level>", "é", "", "<fg 1>"]
@@ -871,8 +1135,7 @@ def enc_list(xs):
 def pair_lines(sc, results):
     """driver lines `pair …` for the log steps of a scenario the handler-level model covers, with what the
     implementation did: [(line, impl_string, step_index)]"""
-    if sc.get("rewrite"):
-        return []         # the handler-level model has no rewriting of the record between handlers
+    rewritten = bool(sc.get("rewrite"))    # then: driver op `pairw` (model `emitOne`: the per-handler drop rule)
     fmt = sc["format"] if sc["dynamic"] else sc["format"] + "\n{exception}"
     try:
         chunks = list(string.Formatter().parse(fmt))
@@ -939,7 +1202,14 @@ def pair_lines(sc, results):
             impl = "err ValueError"
         else:
             continue
-        out.append(("pair %s %s %s %s" % (enc_list(enc_chunks), enc_list(feeds), enc(color), enc_list(vals)), impl, ri - 1))
+        if rewritten:
+            if res[0] != "ok":
+                continue
+            # record["message"] as the pair found it: a record value like the other fields (given to the model)
+            out.append(("pairw %s %s %s %s %s" % (enc_list(enc_chunks), enc_list(feeds), enc(color), enc_list(vals),
+                                                  enc(str(res[3]["message"]))), impl, ri - 1))
+        else:
+            out.append(("pair %s %s %s %s" % (enc_list(enc_chunks), enc_list(feeds), enc(color), enc_list(vals)), impl, ri - 1))
     return out
 
 
@@ -959,12 +1229,33 @@ def run(ctx):
     # derive the stream through the hash-based fork so that seeds 0,1,2… give unrelated runs
     rng = ctx.rng.fork("C06")
     drv = core.Driver(DRIVER)
+    import time as _time
+    marks = [("start", _time.time())]
     boost = 2 if getattr(ctx, "search_boost", False) else 1
     lines, expect = [], []     # driver lines and (what, impl_result, replay)
 
     def add_line(line, what, impl, replay):
         lines.append(line)
         expect.append((what, impl, replay))
+
+    def add_tree(text):
+        # tree equivalence (`tree_equivalence`): the Lean reference reader against the implementation's styled
+        # characters, and against the harness's own recursive-descent oracle
+        if "\x1b" in text:
+            return
+        ctx.stat("tree:lines")
+        add_line(tree_line(text), "tree", impl_tree(text), {"stream": "tree", "text": text, "oracle": oracle_tree(text)})
+        if ctx.stats.get("tree:lines", 0) % 5 == 0 or not ctx.quick:
+            # `printed_string_styles_eq_enclosing_tags`: the Lean reading of the printed STRING vs the harness's
+            from loguru._colorizer import AnsiParser
+            p_ = AnsiParser()
+            try:
+                p_.feed(text)
+                colored = AnsiParser.colorize(p_.done(), LVL_SEQ)
+            except ValueError:
+                return
+            ctx.stat("sgrstr:lines")
+            add_line("sgrstr " + enc(colored), "sgrstr", sgrstr_expect(colored), {"stream": "sgrstr", "text": colored})
 
     # ---- known finding F10: probe its witness on every run
     res = run_scenario(F10_WITNESS)
@@ -1001,16 +1292,27 @@ def run(ctx):
                 res0 = run_scenario(sc0)
                 judge_scenario(ctx, sc0, res0, "corpus:" + fn)
                 for line, impl, step in pair_lines(sc0, res0):
-                    add_line(line, "pair", impl, {"stream": "scenario", "scenario": sc0, "origin": "corpus:" + fn, "step": step})
+                    add_line(line, line.split(" ", 1)[0], impl, {"stream": "scenario", "scenario": sc0, "origin": "corpus:" + fn, "step": step})
                 ctx.case(("corpus", fn), nontrivial=True)
                 ctx.stat("corpus:scenario")
+            elif item.get("stream") == "multi":
+                ops0 = item["ops"]
+                res0 = run_multi(ops0)
+                judge_multi(ctx, ops0, res0, "corpus:" + fn)
+                ml0 = multi_line(ops0, res0)
+                if ml0 is not None:
+                    add_line(ml0[0], "multi", ml0[1], {"stream": "multi", "ops": ops0, "origin": "corpus:" + fn})
+                ctx.case(("corpus", fn), nontrivial=True)
+                ctx.stat("corpus:multi")
             elif item.get("stream") == "parse":
                 CORPUS_PARSE.append(item["text"])
     for text in CORPUS_PARSE:
         judge_parse(ctx, text, "corpus")
         add_line("parse " + enc(text), "parse", impl_parse(text), {"stream": "parse", "text": text})
         add_line("scan " + enc(text), "scan", impl_scan(text), {"stream": "scan", "text": text})
+        add_tree(text)
 
+    marks.append(("stream 1", _time.time()))
     # ---- stream 1: structured markup strings -> AnsiParser vs model, and vs the oracle reader
     n1 = ctx.n(6000, 120000) * boost
     for i in range(n1):
@@ -1025,7 +1327,9 @@ def run(ctx):
         if i < 2:
             ctx.sample({"stream": "parse", "text": text, "impl": r})
         add_line("parse " + enc(text), "parse", r, {"stream": "parse", "text": text})
+        add_tree(text)
 
+    marks.append(("stream 2", _time.time()))
     # ---- stream 2: adversarial strings -> regex vs scanner, parser vs model
     n2 = ctx.n(6000, 120000) * boost
     for i in range(n2):
@@ -1035,7 +1339,10 @@ def run(ctx):
         ctx.stat("parse:adversarial")
         add_line("scan " + enc(text), "scan", impl_scan(text), {"stream": "scan", "text": text})
         add_line("parse " + enc(text), "parse", impl_parse(text), {"stream": "parse", "text": text})
+        if i % 3 == 0 or not ctx.quick:
+            add_tree(text)
 
+    marks.append(("stream 3", _time.time()))
     # ---- stream 3: _get_ansicode on every documented tag, every fg/bg form, bad tags, and ansify
     tags = list(TAG_POOL) + FORM_POOL + BAD_TAGS
     for n in ([0, 1, 9, 10, 99, 100, 254, 255, 256, 300, 1000] if ctx.quick else range(0, 300)):
@@ -1061,8 +1368,10 @@ def run(ctx):
     for color in LEVEL_COLORS + ["<red>x", "<b></b>", "</b>", "<foo>", " <level> ", "\\<red>"]:
         add_line("ansify " + enc(color), "ansify", impl_ansify(color), {"stream": "ansify", "text": color})
 
+    marks.append(("stream 4", _time.time()))
     # ---- stream 4: `\s` of the regex engine vs the model's whitespace set
-    cps = list(range(0, 0x3100)) + ([0xFEFF, 0xE000, 0x1F600, 0x10FFFF] if ctx.quick else list(range(0x3100, 0x110000, 1)))
+    cps = (list(range(0, 0x2100)) + list(range(0x2FF0, 0x3010)) + [0xFEFF, 0xE000, 0x1F600, 0x10FFFF]) if ctx.quick \
+        else list(range(0, 0x110000))
     ws_re = re.compile(r"\s")
     for cp in cps:
         if 0xD800 <= cp <= 0xDFFF:
@@ -1070,6 +1379,7 @@ def run(ctx):
         add_line("ws %d" % cp, "ws", "1" if ws_re.match(chr(cp)) else "0", {"stream": "ws", "cp": cp})
     ctx.stat("ws:codepoints", len(cps))
 
+    marks.append(("stream 5", _time.time()))
     # ---- stream 5: handler scenarios judged by the direct oracle
     n5 = ctx.n(4000, 60000) * boost
     for i in range(n5):
@@ -1078,8 +1388,8 @@ def run(ctx):
         results = run_scenario(sc)
         judge_scenario(ctx, sc, results, "generated")
         for line, impl, step in pair_lines(sc, results):
-            ctx.stat("pair:lines")
-            add_line(line, "pair", impl, {"stream": "scenario", "scenario": sc, "origin": "pair", "step": step})
+            ctx.stat(line.split(" ", 1)[0] + ":lines")
+            add_line(line, line.split(" ", 1)[0], impl, {"stream": "scenario", "scenario": sc, "origin": "pair", "step": step})
         logs = [s for s in sc["steps"] if s["op"] == "log"]
         nt = any((s["nest"] >= 2 or s["esc"] > 0) for s in logs) and any(r[0] == "ok" and r[2].strip() for r in results)
         ctx.case(("scenario", repr(sc)), nontrivial=nt)
@@ -1102,11 +1412,32 @@ def run(ctx):
             ctx.sample({"stream": "scenario", "scenario": sc,
                         "impl": [r[:3] for r in results]})
 
+    marks.append(("stream 5b", _time.time()))
+    # ---- stream 5b: several handlers on one core (added / removed between level declarations), loggers copied
+    for i in range(ctx.n(700, 12000) * boost):
+        sub = rng.fork("multi%d" % i)
+        ops = gen_multi(sub)
+        res = run_multi(ops)
+        judge_multi(ctx, ops, res, "generated")
+        ctx.case(("multi", repr(ops)), nontrivial=(sum(1 for o in ops if o[0] == "add") >= 2
+                                                   and any(o[0] in ("recolor", "newlevel") for o in ops)))
+        ctx.stat("multi")
+        for o in ops:
+            ctx.stat("multi:" + o[0] + (":" + o[1] if o[0] == "copy" else ""))
+        ml = multi_line(ops, res)
+        if ml is not None:
+            add_line(ml[0], "multi", ml[1], {"stream": "multi", "ops": ops, "origin": "multi"})
+        if i < 2:
+            ctx.sample({"stream": "multi", "ops": ops, "impl": res})
+
+    marks.append(("stream 6", _time.time()))
     # ---- stream 6: models of CPython pieces: re.sub(ANSI_RE) vs Spec.unansi, str.__format__ vs strFormat
     UA = ["\x1b", "[", "0", "31", ";", "m", "a", "\x1b[", "\x1b[0m", "\x1b[38;5;1m", "x", "[m", "\x1b[m", "M", " ", "1;", "\x1b\x1b["]
     for i in range(ctx.n(1500, 40000)):
         t = "".join(rng.choice(UA) for _ in range(rng.range(0, 8)))
         add_line("unansi " + enc(t), "unansi", enc(ANSI_RE.sub("", t)), {"stream": "unansi", "text": t})
+        if i % 2 == 0:
+            add_line("sgrstr " + enc(t), "sgrstr", sgrstr_expect(t), {"stream": "sgrstr", "text": t})
     for i in range(ctx.n(600, 20000)):
         spec = rng.choice(["", "x", "*", " "]) + rng.choice(["<", ">", "^", "", ""]) + rng.choice(["", "1", "5", "10", "12", "3"]) \
             + rng.choice(["", "", ".0", ".2", ".5", "."]) + rng.choice(["", "", "s", "d", "x"])
@@ -1122,28 +1453,35 @@ def run(ctx):
                  {"stream": "scenario", "scenario": F10_WITNESS, "origin": "F10-witness-model", "step": 0})
 
     # ---- run the model
+    marks.append(("driver", _time.time()))
     out = drv.run(lines)
+    marks.append(("compare", _time.time()))
+    ctx.note("timing (s) before " + ", ".join("%s: %.1f" % (n, t - marks[0][1]) for n, t in marks[1:])
+             + "; driver lines: %d" % len(lines))
     ndis = 0
     for (what, impl, rep), o in zip(expect, out):
         ctx.traces_validated += 1
         impl_s = impl if isinstance(impl, str) else ("ok " + impl[1] if impl[0] == "ok" else "err " + impl[1])
-        if what in ("pair", "sfmt") and o == "err Other":
+        if what in ("pair", "pairw", "sfmt") and o == "err Other":
             ctx.stat(what + ":outside-model")      # spec outside the modelled str.__format__ subset
             if what == "sfmt" and impl_s.startswith("ok") and rep["spec"][-1:] not in ("d", "x") and "0" != rep["spec"][:1]:
                 pass
             continue
         if what == "sfmt" and impl_s == "err ValueError" and o.startswith("err"):
             continue
+        if what == "tree" and (o[:3] if rep["oracle"] == "err" else o) != rep["oracle"]:
+            ctx.broke("spec Markup.tree vs the harness's recursive-descent oracle",
+                      "%r: oracle %s, Lean reference %s" % (rep["text"], rep["oracle"], o))
         if impl_s != o:
             ndis += 1
             ctx.stat("disagreements")
             if ndis <= 5:
                 ctx.broke("correspondence Markup." + what, "%r: impl %s, model %s" % (rep, impl_s, o))
-            if what in ("parse", "code", "scan", "ansify", "pair"):
+            if what in ("parse", "code", "scan", "ansify", "pair", "pairw", "tree", "multi"):
                 rep2 = dict(rep)
                 rep2.update({"expected": o, "observed": impl_s})
                 ctx.violation("implementation and model disagree on %s(%r): impl %s, model %s"
-                              % (what, rep.get("text", rep.get("tag", rep.get("scenario"))), impl_s, o), rep2,
+                              % (what, rep.get("text", rep.get("tag", rep.get("scenario", rep.get("ops")))), impl_s, o), rep2,
                               kind="correspondence")
             if ndis > 20:
                 break
@@ -1215,6 +1553,23 @@ def replay(ctx, rep):
             print("known finding %s: %s" % (f["id"], what))
         print("REPRODUCED" if bad else "not reproduced")
         return 1 if bad else 0
+    if stream == "multi":
+        ops = r["ops"]
+        res = run_multi(ops)
+        for x in res:
+            print("implementation:", x)
+        n = judge_multi(ctx, ops, res, "replay")
+        ml = multi_line(ops, res)
+        if ml is not None:
+            model = core.Driver(DRIVER).run([ml[0]])[0]
+            print("model:         ", model)
+            if model != ml[1]:
+                n += 1
+                print("implementation and model disagree")
+        for v in ctx.violations[:3]:
+            print("violation:", v["what"])
+        print("REPRODUCED" if n else "not reproduced")
+        return 1 if n else 0
     if stream == "parse-oracle":
         judge_parse(ctx, r["text"], "replay")
         for v in ctx.violations[:3]:
@@ -1222,12 +1577,13 @@ def replay(ctx, rep):
         bad = bool(ctx.violations)
         print("REPRODUCED" if bad else "not reproduced")
         return 1 if bad else 0
-    if stream in ("parse", "scan", "code", "ansify"):
+    if stream in ("parse", "scan", "code", "ansify", "tree"):
         key = "tag" if stream == "code" else "text"
         arg = r[key]
-        impl = {"parse": impl_parse, "scan": impl_scan, "code": impl_code, "ansify": impl_ansify}[stream](arg)
+        impl = {"parse": impl_parse, "scan": impl_scan, "code": impl_code, "ansify": impl_ansify,
+                "tree": impl_tree}[stream](arg)
         impl_s = impl if isinstance(impl, str) else ("ok " + impl[1] if impl[0] == "ok" else "err " + impl[1])
-        model = core.Driver(DRIVER).run(["%s %s" % (stream, enc(arg))])[0]
+        model = core.Driver(DRIVER).run([tree_line(arg) if stream == "tree" else "%s %s" % (stream, enc(arg))])[0]
         print("%s(%r)" % (stream, arg))
         print("implementation:", impl_s)
         print("model:         ", model)
